@@ -84,4 +84,41 @@ def encodeU : Nat → Nat → List UInt8
   | 0, _ => []
   | fuel + 1, v => if v < 128 then [UInt8.ofNat v] else UInt8.ofNat (v % 128 + 128) :: encodeU fuel (v / 128)
 
+/-! ### section framing (spec §5.5.2 "Sections", §5.5.3 "Custom Section")
+
+    section_N(B) ::= N:byte size:u32 cont:B        (size = ||B||)
+    customsec    ::= section_0(custom)     custom ::= name byte*      name ::= vec(byte)
+
+A module is a sequence of sections; custom sections may appear anywhere.  Every `u32` may be padded. -/
+
+/-- One section as the framing layer sees it: a non-custom section is an id and an opaque payload. -/
+inductive Item
+  | sec (id : UInt8) (payload : List UInt8)
+  | custom (name content : List UInt8)
+
+/-- `EncItem it bs`: `bs` is an encoding of the section `it` (any padding of the size and name-length fields). -/
+inductive EncItem : Item → List UInt8 → Prop
+  | sec {id : UInt8} {payload sz : List UInt8} (hid : id ≠ 0) (hsz : ULeb 32 payload.length sz) :
+      EncItem (.sec id payload) (id :: (sz ++ payload))
+  | custom {name content nsz sz : List UInt8} (hn : ULeb 32 name.length nsz)
+      (hsz : ULeb 32 (nsz ++ (name ++ content)).length sz) :
+      EncItem (.custom name content) (0 :: (sz ++ (nsz ++ (name ++ content))))
+
+inductive EncStream : List Item → List UInt8 → Prop
+  | nil : EncStream [] []
+  | cons {it : Item} {its : List Item} {b bs : List UInt8} (h : EncItem it b) (t : EncStream its bs) :
+      EncStream (it :: its) (b ++ bs)
+
+/-- What remains of a stream when custom sections are dropped: the list of non-custom `(id, payload)`. -/
+def view : List Item → List (UInt8 × List UInt8)
+  | [] => []
+  | .sec id p :: t => (id, p) :: view t
+  | .custom _ _ :: t => view t
+
+/-- names of the custom sections of a stream -/
+def customNames : List Item → List (List UInt8)
+  | [] => []
+  | .sec _ _ :: t => customNames t
+  | .custom n _ :: t => n :: customNames t
+
 end W2c2Verif.Spec.Binary
